@@ -150,6 +150,15 @@ def has_calls(ir_stmts) -> bool:
     return False
 
 
+def has_par(ir_stmts) -> bool:
+    for s in ir_stmts:
+        if isinstance(s, LoopIR.For) and (isinstance(s.loop_mode, LoopIR.Par) or has_par(s.body)):
+            return True
+        if isinstance(s, LoopIR.If) and (has_par(s.body) or has_par(s.orelse)):
+            return True
+    return False
+
+
 def annotate(p, rng: random.Random):
     """memory and precision annotations; returns (procedure, [descriptions])"""
     notes = []
@@ -162,7 +171,9 @@ def annotate(p, rng: random.Random):
         shape = a.type.shape() if a.type.is_tensor_or_window() else []
         const_shape = bool(shape) and all(isinstance(d, LoopIR.Const) for d in shape)
         if const_shape and rng.random() < 0.6:
-            mem = rng.choice([DRAM_STACK, DRAM_STATIC])
+            # a static buffer inside a parallel loop is shared between threads (memories.py says so itself): that is a
+            # data race of the annotation, not a lowering error, so DRAM_STATIC is only chosen in sequential procedures
+            mem = rng.choice([DRAM_STACK] if has_par(ir.body) else [DRAM_STACK, DRAM_STATIC])
             try:
                 p = S.set_memory(p, "%s:_ #%d" % (nm, k), mem)
                 notes.append("set_memory(%s #%d, %s)" % (nm, k, mem.name()))
